@@ -25,6 +25,7 @@ RULES = {
     "C03.c": "fitted attributes assigned lazily outside fit (caches) are reassigned or deleted on every normal path of fit",
     "C03.d": "on every path of fit (helpers inlined), a read of self.<name>_ / hasattr(self,'<name>_') is dominated by an assignment made by this fit",
     "C03.e": "a fitted attribute that only some fit paths assign is read by predict-reachable code only under the guard it was written under",
+    "C03.g": "where predict-time code has scikit-learn check the input against n_features_in_, every fit path records it (validator with reset, parent fit, or assignment): no width of an earlier fit survives a refit",
     "C03.f": "the object trained by fit is a clone or a fresh object, never the one held in a hyper-parameter (whose fitted state, warm starts included, would survive into the next fit); documented in-place wrappers listed",
 }
 
@@ -604,6 +605,106 @@ def _guards(repo, af: AttrFlow, fi: FunctionInfo, node: ast.AST, root: FunctionI
     return own | (inter or set())
 
 
+# ------------------------------------------------------------------ C03.g
+WIDTH_READERS = {"_check_test_data", "_check_n_features", "_check_feature_names"}
+WIDTH_VALIDATORS = {"validate_data", "_validate_data"}
+
+
+def _reads_width(c: ast.Call) -> bool:
+    """a scikit-learn validator that compares the input with n_features_in_ recorded by fit"""
+    f = c.func
+    nm = f.attr if isinstance(f, ast.Attribute) else (f.id if isinstance(f, ast.Name) else "")
+    rs = next((k.value for k in c.keywords if k.arg == "reset"), None)
+    if nm == "_check_test_data":
+        return True
+    if nm in WIDTH_VALIDATORS or nm in ("_check_n_features", "_check_feature_names"):
+        return rs is not None and isinstance(rs, ast.Constant) and rs.value is False
+    return False
+
+
+def _writes_width(n: ast.AST, parents) -> bool:
+    if isinstance(n, (ast.Assign, ast.AnnAssign)):
+        for t in assign_targets(n):
+            if is_self_attr(t, "n_features_in_"):
+                return True
+    if isinstance(n, ast.Call):
+        f = n.func
+        nm = f.attr if isinstance(f, ast.Attribute) else (f.id if isinstance(f, ast.Name) else "")
+        rs = next((k.value for k in n.keywords if k.arg == "reset"), None)
+        if nm in WIDTH_VALIDATORS or nm == "_check_n_features":
+            return rs is None or (isinstance(rs, ast.Constant) and rs.value is True)
+        if nm in ("fit", "fit_transform", "fit_predict", "partial_fit") and isinstance(f, ast.Attribute):
+            v = src_of(f.value)
+            if v in parents or v == "super()":
+                return True
+    return False
+
+
+def check_g(ck, repo):
+    """an estimator whose predict-time code lets scikit-learn compare the input
+    with the width recorded at fit (`n_features_in_`) must record it on EVERY
+    fit path; a path that does not leaves the width of an earlier fit in place"""
+    from .sem import paths as _paths, RAISE as _RAISE
+
+    n = 0
+    for ci in estimator_classes(repo):
+        _, fit = repo.find_method(ci, "fit")
+        if fit is None or fit.cls is None:
+            continue
+        pred_roots = [m for nm in PREDICT_ENTRY for _, m in [repo.find_method(ci, nm)] if m is not None]
+        readers = []
+        for g in reachable_functions(repo, pred_roots):
+            for c in own_nodes_incl_lambda(g.node):
+                if isinstance(c, ast.Call) and _reads_width(c):
+                    readers.append((g, c))
+        if not readers:
+            continue
+        n += 1
+        parents = {b.split(".")[-1] for b in repo.external_bases(ci)} | {c.name for c in repo.mro(ci)[1:] if isinstance(c, ClassInfo)}
+
+        def has_writer(fn: FunctionInfo, seen) -> bool:
+            if fn.qualname in seen:
+                return False
+            seen.add(fn.qualname)
+            for x in own_nodes_incl_lambda(fn.node):
+                if _writes_width(x, parents):
+                    return True
+                if isinstance(x, ast.Call):
+                    g2 = resolve_call(repo, fn, x)
+                    if g2 is not None and g2.name != "__init__" and has_writer(g2, seen):
+                        return True
+            return False
+
+        try:
+            ps = [p for p in _paths(fit) if p.ret != _RAISE]
+        except AnalysisError:
+            ps = []
+        bad = None
+        for p in ps:
+            ok = False
+            for c in p.calls:
+                if _writes_width(c, parents):
+                    ok = True
+                    break
+                g2 = resolve_call(repo, fit, c)
+                if g2 is not None and g2.name != "__init__" and has_writer(g2, set()):
+                    ok = True
+                    break
+            ok = ok or any(k == "self.n_features_in_" for k in p.stores)
+            if not ok:
+                bad = p
+                break
+        g, c = readers[0]
+        if not ps:
+            ck.unknown("C03.g", fit, f"{ci.name}.fit", "no path through fit could be evaluated")
+        elif bad is None:
+            ck.holds("C03.g", fit, f"{ci.name}: n_features_in_ recorded on every fit path", f"`{src_of(c)[:50]}` in {g.name} compares with the width of THIS fit")
+        else:
+            where = " and ".join(t if pol else f"not ({t})" for t, pol in bad.conds) or "always"
+            ck.violated("C03.g", fit, f"{ci.name}.fit when {where[:80]}", f"when {where[:120]}, fit records no n_features_in_ (no scikit-learn validator with reset, no parent fit, no assignment), but `{src_of(c)[:60]}` in {g.name} checks the input against it: after a refit the width of an EARLIER fit is used (e.g. fit with norm='L2' on 3 columns, set_params(norm='L1'), fit on 2 columns: transform raises while a fresh clone works)")
+    return n
+
+
 def run(ck):
     repo = ck.repo
     for k, v in RULES.items():
@@ -615,6 +716,7 @@ def run(ck):
     from .c02 import check_d as _trained_object
 
     ck.extra["trained_receivers"] = _trained_object(ck, repo, rule="C03.f")
+    ck.extra["width_checked_classes"] = check_g(ck, repo)
     ck.extra["rng_constructor_sites"] = na
     ck.extra["fit_methods_analysed"] = nf
     ck.extra["exemptions"] = {"C03.a": {f"{k[0]}/{k[1]}": v for k, v in A_EXEMPT.items()}, "C03.c": {f"{k[0]}.{k[1]}": v for k, v in C_EXEMPT.items()}}
